@@ -9,7 +9,7 @@
         no duplicate / overlapping / non-contiguous bins)
      & [ends_agree]: rows with the same left edge have the same right edge - NOT validated by the code (it only matters
        for the last bin; inner bins are forced by contiguity); data violating it is not "well-formed binned data".
-   Requests are duplicate-free label lists ([NoDup idx]).
+   Requests are arbitrary label lists: a label may occur several times (each occurrence gets the simulant's row).
    Open finding F-N (known_findings.json): the `year` value is year + yday/365.25, which leaves the current calendar
    year on day-of-year 366: C15_year_current carries the exact guard [1 <= yday <= 365]; the excluded class is
    exhibited by C15_year_leap_dec31_refuted. *)
@@ -59,7 +59,7 @@ Proof. exact edges_half_open. Qed.
 (* Locality: the call on a request IS the per-simulant function mapped over the request, label by label, in request
    order - up to WHICH error is reported when several simulants fail ([agree]: equal frames, or both rejected).
    No well-formedness needed: this is how the code distributes a request over key groups and merges back. *)
-Theorem C15_local : forall ext d k ypos yv pop idx, NoDup idx ->
+Theorem C15_local : forall ext d k ypos yv pop idx,
   agree (table_call ext d k ypos yv pop idx)
         (match gather pop idx with
          | None => Rejected EPopulation
@@ -68,7 +68,7 @@ Theorem C15_local : forall ext d k ypos yv pop idx, NoDup idx ->
 Proof. exact table_call_local. Qed.
 
 (* Indexed exactly like the request; each simulant's cells are its own [lookup_one] - whoever else is requested. *)
-Theorem C15_indexed_like_request : forall ext d k ypos yv pop idx fr, NoDup idx ->
+Theorem C15_indexed_like_request : forall ext d k ypos yv pop idx fr,
   table_call ext d k ypos yv pop idx = Ok fr ->
   map fst fr = idx /\
   exists ss, gather pop idx = Some ss /\
@@ -79,7 +79,7 @@ Proof. exact table_call_indexed. Qed.
 
 (* The decision to reject is the only non-local part (the code tests the request's min / max): rejected iff SOME
    requested simulant is unknown or would be rejected on its own.  The model never runs out of fuel. *)
-Theorem C15_rejected_iff : forall ext d k ypos yv pop idx, NoDup idx ->
+Theorem C15_rejected_iff : forall ext d k ypos yv pop idx,
   ((exists e, table_call ext d k ypos yv pop idx = Rejected e) <->
    (gather pop idx = None \/
     exists ss s e, gather pop idx = Some ss /\ In s (with_year_all ypos yv ss) /\
@@ -93,7 +93,7 @@ Proof. exact scalar_broadcast. Qed.
 
 (* categorical tables (unique key tuples): per simulant THE data row with its key tuple; rejected iff some requested
    simulant has none; indexed like the request *)
-Theorem C15_categorical : forall d pop idx, nodup_keys d = true -> NoDup idx ->
+Theorem C15_categorical : forall d pop idx, nodup_keys d = true ->
   agree (cat_call d pop idx)
         (match gather pop idx with None => Rejected EPopulation | Some ss => map_res (cat_one d) ss end) /\
   (forall fr, cat_call d pop idx = Ok fr ->
@@ -101,7 +101,7 @@ Theorem C15_categorical : forall d pop idx, nodup_keys d = true -> NoDup idx ->
      exists ss, gather pop idx = Some ss /\ fr = map (fun s => (fst s, val (cat_one d (snd s)))) ss /\
                 forall s, In s ss -> cat_one d (snd s) = Ok (val (cat_one d (snd s)))).
 Proof.
-  intros d pop idx Hnd Hn. split; [now apply cat_call_local|]. intros fr E. now apply cat_call_indexed.
+  intros d pop idx Hnd. split; [now apply cat_call_local|]. intros fr E. now apply cat_call_indexed.
 Qed.
 
 Theorem C15_categorical_row : forall d s vs, cat_one d s = Ok vs ->
@@ -151,6 +151,9 @@ Proof. vm_compute. reflexivity. Qed.
 Example ex_outside_rejected : table_call false ex_d 2 None 0 ex_pop [1; 2] = Rejected EConfig.
 Proof. vm_compute. reflexivity. Qed.
 Example ex_extrapolated : table_call true ex_d 2 None 0 ex_pop [3; 2; 0] = Ok [(3, Some [111]); (2, Some [110]); (0, Some [103])].
+Proof. vm_compute. reflexivity. Qed.
+Example ex_duplicates : table_call false ex_d 2 None 0 ex_pop [1; 0; 1; 1] =
+  Ok [(1, Some [102]); (0, Some [103]); (1, Some [102]); (1, Some [102])].
 Proof. vm_compute. reflexivity. Qed.
 Example ex_unknown_key : table_call true ex_d 2 None 0 ex_pop [0; 4] = Rejected EPopulation.
 Proof. vm_compute. reflexivity. Qed.
